@@ -108,7 +108,7 @@ RULES = [
  (r"^VecDense\.MulVec\|a=.*\|other=opaque\|no-panic", "RC07-mulvec-nonfast-path-unchecked"),
  (r"^VecDense\.MulVec\|a=TriDense(\.T)?:overlap\|other=VecDense\|operand-modified-before-panic$", "RC08-mulvec-tri-copy-before-check"),
  (r"^(Dense\.Solve|VecDense\.SolveVec)\|a=", "RC09-solve-a-never-checked"),
- (r"^Dense\.Solve\|b=(Dense|Dense\.T|RawMatrixer):overlap\|.*no-panic\(result-ok\)$", "RC10-qr-lq-solve-overlap-by-design"),
+ (r"^Dense\.Solve\|b=(Dense|Dense\.T|RawMatrixer|VecDense):overlap\|.*no-panic\(result-ok\)$", "RC10-qr-lq-solve-overlap-by-design"),
  (r"^Dense\.Solve\|b=VecDense:overlap", "RC11-solveto-vecdense-b-unchecked"),
  (r"^(LU|Cholesky|BandCholesky|PivotedCholesky|TriDense)\.SolveTo\|b=VecDense:overlap", "RC11-solveto-vecdense-b-unchecked"),
  (r"^Dense\.Copy\|a=(Dense|VecDense):overlap", "RC12-dense-copy-assumes-equal-stride"),
@@ -169,7 +169,8 @@ def main():
                         "root_cause": rc})
     out = {"property": "C05",
            "root_causes": {k: {"where": v[0], "what": v[1], "fix": v[2],
-                               "signatures": sum(1 for e in entries if e["root_cause"] == k)} for k, v in ROOT.items()},
+                               "signatures": sum(1 for e in entries if e["root_cause"] == k)} for k, v in ROOT.items()
+                           if any(e["root_cause"] == k for e in entries)},
            "entries": entries}
     dst = os.path.join(os.path.dirname(os.path.abspath(__file__)), "..", "proposed_known_findings.json")
     json.dump(out, open(dst, "w"), indent=1)
